@@ -2,7 +2,7 @@
 import json, os, re, subprocess
 from lib import fw
 
-MODULES = ["SunriseVerif.Props.C16", "SunriseVerif.Witness.C16"]
+MODULES = ["SunriseVerif.Props.C16", "SunriseVerif.Witness.C16", "SunriseVerif.Props.TieGov"]
 
 
 def known_features(f):
@@ -18,7 +18,7 @@ def known_features(f):
 def run(ctx):
     if not ctx.translate():
         return
-    ok = ctx.prove(MODULES)
+    ok = ctx.prove(MODULES, needs_gen=["KernelsTieGov"])
     res = fw.corr(ctx, "govtally", 1200 if ctx.thorough() else 40)
     fw.report_corr(ctx, "govtally", res, known_features)
     if res is not None:
